@@ -152,6 +152,85 @@ pub assume_specification[ <AisParser as core::default::Default>::default ]() -> 
     ensures r@ == (PState { id: None, num: 0, data: Seq::empty() }), r.inv(),
 ;
 
+
+// ---- history-level consequences of `step` (C05 / C06 / C17): proved over the transition function, so they are
+// ---- about the code exactly as far as the contract of AisParser::parse is ----------------------------------------
+/// a checksum-valid, well-formed line carrying fragment k of n with sequence id `id`
+pub open spec fn frag_ok(l: Seq<u8>, n: int, k: int, id: Option<u8>) -> bool {
+    n_ok(l) && xor_spec(n_raw(l)) as int == n_ck(l) && sview_of(l).n == n && sview_of(l).k == k && sview_of(l).id == id
+}
+/// C17: a rejected line and an unfragmented sentence leave the state untouched
+pub proof fn lemma_neutral(st: PState, l: Seq<u8>)
+    ensures ({ let (st2, out) = step(st, l); (out is Rejected || (out is Complete && sview_of(l).n == 1)) ==> st2 == st }),
+{}
+/// C05: fragment 1 of n >= 2 opens the group whatever the parser processed before
+pub proof fn lemma_frag_first(st: PState, l: Seq<u8>, n: int, id: Option<u8>)
+    requires frag_ok(l, n, 1, id), n >= 2,
+    ensures step(st, l) == (PState { id: id, num: 1, data: sview_of(l).data }, Outcome::Incomplete(sview_of(l))),
+{}
+/// C05: the next fragment of the open group is accepted, reports its own fields, and its payload is appended
+pub proof fn lemma_frag_next(st: PState, l: Seq<u8>, n: int, j: int, id: Option<u8>)
+    requires st.id == id, st.num == j, j >= 1, frag_ok(l, n, j + 1, id), j + 1 < n,
+    ensures step(st, l) == (PState { id: id, num: j + 1, data: st.data + sview_of(l).data }, Outcome::Incomplete(sview_of(l))),
+{}
+/// C05: the last fragment delivers the exact concatenation and closes the group
+pub proof fn lemma_frag_last(st: PState, l: Seq<u8>, n: int, id: Option<u8>)
+    requires st.id == id, st.num == n - 1, n >= 2, frag_ok(l, n, n, id),
+    ensures step(st, l) == (PState { id: id, num: 0, data: Seq::empty() }, Outcome::Complete(SView { data: st.data + sview_of(l).data, ..sview_of(l) })),
+{}
+/// C06: a fragment k >= 2 that is not rejected directly continues the open group (same id, previous accepted fragment k-1)
+pub proof fn lemma_accept_continues(st: PState, l: Seq<u8>)
+    requires sview_of(l).k >= 2, sview_of(l).n != 1, !(step(st, l).1 is Rejected),
+    ensures st.id == sview_of(l).id, st.num == sview_of(l).k - 1, st.num >= 1,
+{}
+/// C06: after a delivery no group is open, and with no open group every fragment k >= 2 is rejected
+pub proof fn lemma_closed(st: PState, l: Seq<u8>)
+    ensures
+        (step(st, l).1 is Complete && sview_of(l).n != 1) ==> step(st, l).0.num == 0,
+        (st.num == 0 && sview_of(l).k >= 2 && sview_of(l).n != 1) ==> step(st, l).1 is Rejected && step(st, l).0 == st,
+{}
+
+/// state after the first j lines of a history / outcome of line j
+pub open spec fn run_n(st: PState, h: Seq<Seq<u8>>, j: int) -> PState
+    decreases j
+{
+    if j <= 0 { st } else { step(run_n(st, h, j - 1), h[j - 1]).0 }
+}
+pub open spec fn out_n(st: PState, h: Seq<Seq<u8>>, j: int) -> Outcome { step(run_n(st, h, j), h[j]).1 }
+pub open spec fn concat_data(h: Seq<Seq<u8>>, j: int) -> Seq<u8>
+    decreases j
+{
+    if j <= 0 { Seq::empty() } else { concat_data(h, j - 1) + sview_of(h[j - 1]).data }
+}
+/// C05 by induction: n in-order fragments of one group, from ANY prior state: every fragment but the last is Incomplete with its
+/// own fields and the state tracks the concatenation so far
+pub proof fn lemma_reassembly_prefix(st: PState, h: Seq<Seq<u8>>, n: int, id: Option<u8>, j: int)
+    requires n >= 2, h.len() == n, forall|i: int| 0 <= i < n ==> frag_ok(#[trigger] h[i], n, i + 1, id), 1 <= j <= n - 1,
+    ensures run_n(st, h, j) == (PState { id: id, num: j, data: concat_data(h, j) }), out_n(st, h, j - 1) == Outcome::Incomplete(sview_of(h[j - 1])),
+    decreases j
+{
+    if j == 1 {
+        lemma_frag_first(st, h[0], n, id);
+        assert(concat_data(h, 1) =~= sview_of(h[0]).data) by { assert(concat_data(h, 0) =~= Seq::<u8>::empty()); }
+    } else {
+        lemma_reassembly_prefix(st, h, n, id, j - 1);
+        lemma_frag_next(run_n(st, h, j - 1), h[j - 1], n, j - 1, id);
+    }
+}
+/// ... and the last one is Complete with the exact concatenation of all fragment payloads
+pub proof fn lemma_reassembly(st: PState, h: Seq<Seq<u8>>, n: int, id: Option<u8>)
+    requires n >= 2, h.len() == n, forall|i: int| 0 <= i < n ==> frag_ok(#[trigger] h[i], n, i + 1, id),
+    ensures out_n(st, h, n - 1) == Outcome::Complete(SView { data: concat_data(h, n), ..sview_of(h[n - 1]) }), run_n(st, h, n).num == 0,
+{
+    lemma_reassembly_prefix(st, h, n, id, n - 1);
+    lemma_frag_last(run_n(st, h, n - 1), h[n - 1], n, id);
+}
+/// C17 (erase): a line that leaves the state untouched does not change what any later line produces
+pub proof fn lemma_erase(st: PState, l: Seq<u8>, rest: Seq<Seq<u8>>, j: int)
+    requires step(st, l).0 == st, 0 <= j < rest.len(),
+    ensures out_n(step(st, l).0, rest, j) == out_n(st, rest, j),
+{}
+
 impl vstd::std_specs::convert::FromSpecImpl<AisFragments> for Option<AisSentence> {
     open spec fn obeys_from_spec() -> bool { false }
     open spec fn from_spec(v: AisFragments) -> Option<AisSentence> { None }
@@ -187,7 +266,8 @@ def apply(fc):
     fc.contract('parse_numeric_string', external_body=True, tags=['C07', 'C08'])
     fc.contract('parse_u8_digit', requires=[], ensures=['digit_post(data, r)'], external_body=True, tags=['C07', 'C08'])
     fc.contract('parse_ais_sentence', requires=['line_small(data@.len() as int)'],
-                ensures=['pas_C08(data, r)', 'pas_C07(data, r)', 'pas_C19(data, r)', 'pas_KFD4(data, r)'])
+                ensures=['pas_C08(data, r)', 'pas_C07(data, r)', 'pas_C19(data, r)', 'pas_KFD4(data, r)'],
+                attrs=['#[verifier::spinoff_prover]', '#[verifier::rlimit(400)]'])
     fc.body_prefix('parse_ais_sentence', '    proof { suf_unfold(data); }')
     fc.replace_in('parse_ais_sentence', '|val| *val < 6', '|val: &u8| -> (b: bool) ensures b == (*val < 6), { *val < 6 }')
     fc.contract('parse_nmea_sentence', requires=['line_small(data@.len() as int)'],
@@ -195,6 +275,10 @@ def apply(fc):
     fc.body_prefix('parse_nmea_sentence', '    proof { suf_self(data); }')
     fc.insert_before('parse_nmea_sentence', 'let (data, msg) = terminated(', 'proof { suf_unfold(data); }\n    ')
     fc.replace_in('parse_nmea_sentence', '|val| val <= &0xff', '|val: &u32| -> (b: bool) ensures b == (*val <= 0xff), { val <= &0xff }')
+    for nm, tg in [('lemma_neutral', ['C17', 'C05']), ('lemma_frag_first', ['C05']), ('lemma_frag_next', ['C05']), ('lemma_frag_last', ['C05']),
+                   ('lemma_accept_continues', ['C06']), ('lemma_closed', ['C06']), ('lemma_reassembly_prefix', ['C05']), ('lemma_reassembly', ['C05']),
+                   ('lemma_erase', ['C17'])]:
+        fc.lemma(nm, tg)
     fc.contract('new', within='impl AisParser', ensures=['r@ == (PState { id: None, num: 0, data: Seq::empty() })', 'r.inv()'], tags=['C05', 'C17'])
     fc.contract('parse', within='impl AisParser', requires=['line_small(line@.len() as int)', 'old(self).inv()'],
                 ensures=['parse_post(old(self)@, final(self)@, line@, decode, r)', 'parse_C02(line@, decode, r)', 'final(self).inv()'], tags=['C02', 'C05', 'C06', 'C07', 'C08', 'C17'])
